@@ -242,6 +242,9 @@ theorem queued_updateHold (db : DB) (hid : Nat) (c : Cmd) (a : Nat) : ((db.updat
 theorem updateHold_nextHid (db : DB) (hid : Nat) (c : Cmd) : (db.updateHold hid c).nextHid = db.nextHid := by
   unfold DB.updateHold DB.addExpried; simp only []; split <;> rfl
 
+theorem noAck_ack (r : Rec) : r.noAckFlag.cmd.ack = false := by show has 0 TF_ACK = false; decide
+theorem noAck_hid (r : Rec) : r.noAckFlag.hid = r.hid := rfl
+
 theorem InvA.opLock {db : DB} (h : InvA db) (c : Cmd) : InvA (opLock db c).1 := by
   unfold Slock.Ack.opLock
   cases e : classifyLock db c with
@@ -289,15 +292,11 @@ theorem InvA.opLock {db : DB} (h : InvA db) (c : Cmd) : InvA (opLock db c).1 := 
     · rename_i f _
       have h2 := (h1.modKey c.key (fun k => { k with cell := some (applyFrame k.cell f).1 })).updateHold x c
       split
-      · apply InvA.pushLock h2
-        · rw [updateHold_nextHid]; simp; exact hx.1
-        · rw [queued_updateHold, getR_modKey]; exact hq1
+      · exact h2.pushJ _ true (fun _ hh => by rw [noAck_ack] at hh; exact absurd hh (by decide))
       · exact h2
     · have h2 := h1.updateHold x c
       split
-      · apply InvA.pushLock h2
-        · rw [updateHold_nextHid]; simp; exact hx.1
-        · rw [queued_updateHold]; exact hq1
+      · exact h2.pushJ _ true (fun _ hh => by rw [noAck_ack] at hh; exact absurd hh (by decide))
       · exact h2
   | grant =>
     unfold applyLock
